@@ -227,35 +227,56 @@ def run_c18(prop, tier, seed, report, scratch):
     report.coverage["direct_entry_shapes"] = shape_part
 
 
-def run_c02(prop, tier, seed, report, scratch):
-    """C02: the family-L pipeline, plus an Apalache inductiveness check of the sets-only abstraction CoreInd.tla
-    (IndInv holds initially and is preserved by every step from EVERY state satisfying it: all DAGs over the
-    entry universe, not only the histories a bounded TLC run reaches).  The Apalache stage never produces a
-    verdict about the code (the binding is the family-L replay); its outcome is recorded in the evidence."""
-    run_l(plans_core)(prop, tier, seed, report, scratch)
+def apalache_stage(report, scratch, tier, module, consts, consequence=None):
+    """Inductiveness check with Apalache: IndInv holds initially and is preserved by every step from EVERY state satisfying
+    it (all DAGs over the entry universe, not only the histories a bounded TLC run reaches); optionally IndInv => consequence.
+    The stage never produces a verdict about the code (the binding is the family-L replay): its outcome is recorded in the
+    evidence, a failure or timeout is a note."""
     import shutil
     import subprocess
     from vlib import SPEC, run
-    d = os.path.join(scratch, "apalache")
+    d = os.path.join(scratch, "apalache-" + module)
     os.makedirs(d, exist_ok=True)
-    shutil.copy(os.path.join(SPEC, "CoreInd.tla"), d)
-    n, nr = (5, 2) if tier == "quick" else (7, 3)
-    open(os.path.join(d, "ci.cfg"), "w").write("CONSTANTS\n N = %d\n NR = %d\nINIT IndInit\nNEXT Next\nINVARIANT IndInv\n" % (n, nr))
-    out = {"universe_entries": n, "replicas": nr}
+    shutil.copy(os.path.join(SPEC, module + ".tla"), d)
+    open(os.path.join(d, "ci.cfg"), "w").write("CONSTANTS\n" + "".join(" %s = %d\n" % kv for kv in consts.items())
+                                               + "INIT IndInit\nNEXT Next\nINVARIANT IndInv\n")
+    out = dict(consts)
+    out["module"] = module
+    ok = "The outcome is: NoError"
     try:
-        p1 = run(["apalache-mc", "check", "--config=ci.cfg", "--init=IndInit", "--inv=IndInv", "--length=1", "--out-dir=" + d + "/out",
-                  "CoreInd.tla"], cwd=d, timeout=600 if tier == "quick" else 2400)
-        p0 = run(["apalache-mc", "check", "--config=ci.cfg", "--init=Init", "--inv=IndInv", "--length=0", "--out-dir=" + d + "/out",
-                  "CoreInd.tla"], cwd=d, timeout=300)
-        out["inductive_step"] = "The outcome is: NoError" in p1.stdout
-        out["base_case"] = "The outcome is: NoError" in p0.stdout
-        log("  CoreInd.tla (Apalache, N=%d, NR=%d): base case %s, inductive step %s" % (n, nr, out["base_case"], out["inductive_step"]))
-        if not (out["inductive_step"] and out["base_case"]):
-            report.notes.append("Apalache did not establish IndInv for CoreInd.tla: " + (p1.stdout + p0.stdout)[-600:])
+        common = ["apalache-mc", "check", "--config=ci.cfg", "--out-dir=" + d + "/out"]
+        p1 = run(common + ["--init=IndInit", "--inv=IndInv", "--length=1", module + ".tla"], cwd=d, timeout=900 if tier == "quick" else 3000)
+        p0 = run(common + ["--init=Init", "--inv=IndInv", "--length=0", module + ".tla"], cwd=d, timeout=600)
+        out["inductive_step"] = ok in p1.stdout
+        out["base_case"] = ok in p0.stdout
+        tail = p1.stdout + p0.stdout
+        if consequence:
+            p2 = run(common + ["--init=IndInit", "--inv=" + consequence, "--length=0", module + ".tla"], cwd=d, timeout=600)
+            out["implies_" + consequence] = ok in p2.stdout
+            tail += p2.stdout
+        log("  %s.tla (Apalache, %s): %s" % (module, consts, {k: v for k, v in out.items() if isinstance(v, bool)}))
+        if not all(v for v in out.values() if isinstance(v, bool)):
+            report.notes.append("Apalache did not establish IndInv for %s.tla: %s" % (module, tail[-600:]))
     except (subprocess.TimeoutExpired, FileNotFoundError, OSError) as e:
         out["error"] = str(e)[:200]
         report.notes.append("Apalache stage skipped: %s" % out["error"])
-    report.coverage["apalache_inductive_invariant"] = out
+    report.coverage.setdefault("apalache_inductive_invariants", []).append(out)
+
+
+def run_c02(prop, tier, seed, report, scratch):
+    """C02: the family-L pipeline, plus an Apalache inductiveness check of the sets-only abstraction CoreInd.tla."""
+    run_l(plans_core)(prop, tier, seed, report, scratch)
+    n, nr = (5, 2) if tier == "quick" else (7, 3)
+    apalache_stage(report, scratch, tier, "CoreInd", {"N": n, "NR": nr})
+
+
+def run_c04(prop, tier, seed, report, scratch):
+    """C04: the family-L pipeline, plus an Apalache inductiveness check of the clock rule (ClockInd.tla): the time Append
+    computes dominates every entry of the log, for every DAG and clock assignment satisfying the invariant - including logs
+    read back from the store (clock 0), refused appends (tick kept) and identity changes."""
+    run_l(plans_c04)(prop, tier, seed, report, scratch)
+    n, nr, mt = (5, 2, 7) if tier == "quick" else (6, 3, 8)
+    apalache_stage(report, scratch, tier, "ClockInd", {"N": n, "NR": nr, "MaxT": mt}, consequence="C04_NextAppendDominates")
 
 
 CHECKS = {
@@ -263,7 +284,7 @@ CHECKS = {
     "C02": dict(level="model_checking", run=run_c02),
     "C03": dict(level="model_checking", run=run_l(plans_core)),
     "C05": dict(level="model_checking", run=run_l(plans_core)),
-    "C04": dict(level="model_checking", run=run_l(plans_c04)),
+    "C04": dict(level="model_checking", run=run_c04),
     "C06": dict(level="model_checking", run=run_l(plans_c06)),
     "C07": dict(level="exploration", run=fam_d.run_family_d),
     "C08": dict(level="exploration", run=fam_d.run_family_d),
